@@ -74,7 +74,11 @@ def strategy_(draw, thorough):
         aopts.append({"rgo": draw(frames.row_group_offsets(b["n"])),
                       "compression": draw(st.sampled_from(frames.CODECS)),
                       "via": draw(st.sampled_from(["write", "write", "write_row_groups"]))})
-    return {"batches": batches, "create_opts": opts, "append_opts": aopts, "partition_on": pn}
+    keep = draw(st.booleans())
+    if keep and len(aopts) >= 2 and draw(st.booleans()):
+        for a in aopts:
+            a["via"] = "write_row_groups"
+    return {"batches": batches, "create_opts": opts, "append_opts": aopts, "partition_on": pn, "keep_handle": keep}
 
 
 def strategy(tier):
@@ -154,6 +158,7 @@ def run_case(case):
                 rows_k.append(rid)
             base += fr["n"]
             if k == 0:
+                held = None
                 kw = cases.write_kwargs(copts)
                 if pn:
                     kw["partition_on"] = pn
@@ -177,8 +182,14 @@ def run_case(case):
                             if pn:
                                 kw["partition_on"] = pn
                             fastparquet.write(path, df, **kw)
+                            held = None       # a handle opened earlier no longer describes the dataset
                         else:
-                            pf = fastparquet.ParquetFile(path)
+                            # several appends through one and the same handle, when nothing else touched the dataset
+                            pf = held if (case.get("keep_handle") and held is not None) else fastparquet.ParquetFile(path)
+                            if case.get("keep_handle"):
+                                if held is not None:
+                                    labels.append("handle_reused")
+                                held = pf
                             d2 = df
                             if pf._get_index():
                                 from fastparquet.util import reset_row_idx
